@@ -38,14 +38,16 @@ def mc_place(ctx):
              [rnd.randrange(256) for _ in range(4096)],
              [rnd.randrange(256) for _ in range(4095)],
              [rnd.choice([0, 255, 10]) for _ in range(33)],
-             [255] * 300]
+             [255] * 300,
+             [0xc3, 0xa9], [0xe2, 0x82, 0xac], [0xf0, 0x9f, 0x98, 0x80], [0x63, 0x61, 0x66, 0xc3, 0xa9, 0x2f, 0xe2, 0x82, 0xac],   # valid multi-byte UTF-8
+             [0xc3], [0xed, 0xa0, 0x80], [0xef, 0xbf, 0xbd]]                                                                          # truncated, surrogate, U+FFFD
     mc = '''---- MODULE MCFileFormatPlace ----
 EXTENDS FileFormatPlace
 MCHdrLens == {32, 64, 160, 192, 512, 544}
 MCLimitUnits == %s
 MCNameLens == {%s}
 MCAlphabet == {%s}
-MCLongNames == {%s}
+MCLongNames == {%s} \\cup {<<a>> : a \\in 0..255}
 MCMetaLens == 0..520
 ====
 ''' % (units, ', '.join(map(str, sorted(set(lens)))), ', '.join(map(str, alpha)),
@@ -128,9 +130,11 @@ def name_requests(ctx):
     lens_b = [2, 4096, 4096, 4081, 4080, 4079, 4064, 4096, 33]   # group 2
     lens_c = [1, 4096, 300]                                # group 3
     lens_d = [5, 17]                                       # group 4
+    lens_e = [1680, 1712]                                  # group 5: after three 4 KiB records the first ends exactly at the reserved
+    #                                                        page tail, the second would reach the page end (ids 23, 24)
     reqs = []
     i = 0
-    for g, ls in enumerate([lens_a, lens_b, lens_c, lens_d]):
+    for g, ls in enumerate([lens_a, lens_b, lens_c, lens_d, lens_e]):
         for n in ls:
             i += 1
             reqs.append({'id': i, 'nlen': n, 'group': g, 'want': {1: 511, 3: 0}.get(g, -1)})
@@ -200,17 +204,32 @@ def run(ctx):
         raise Infra('FileFormatOps simulate: %s\n%s' % (r.error, r.out[-2000:]))
     behs = []
     pages = 0
+
+    def to_step(st):
+        last = st['last']
+        recs = [dict(off=x['off'], nlen=x['nlen'], next=x['next'], id=x['id'], val=x['val'], b=x['b']) for x in st['recs']]
+        return {'op': last['op'], 'a': last['a'], 'id': last['id'], 'k': last['k'], 'm': last['m'], 'x': last['x'],
+                'state': {'metaLen': st['metaLen'], 'hdrLen': st['hdrLen'], 'size': st['size'], 'limit': st['limit'],
+                          'heads': heads_list(st['heads']), 'recs': recs}}
     for i, fn in enumerate(ctx.sim_files(r)):
-        steps = []
-        for (_a, _args, st) in tlaval.read_simulate(fn):
-            last = st['last']
-            recs = [dict(off=x['off'], nlen=x['nlen'], next=x['next'], id=x['id'], val=x['val'], b=x['b']) for x in st['recs']]
-            steps.append({'op': last['op'], 'a': last['a'], 'id': last['id'], 'k': last['k'], 'm': last['m'],
-                          'state': {'metaLen': st['metaLen'], 'hdrLen': st['hdrLen'], 'size': st['size'], 'limit': st['limit'],
-                                    'heads': heads_list(st['heads']), 'recs': recs}})
-            pages = max(pages, st['size'] // 16384)
+        steps = [to_step(st) for (_a, _args, st) in tlaval.read_simulate(fn)]
+        pages = max([pages] + [s['state']['size'] // 16384 for s in steps])
         if len(steps) > 1:
             behs.append({'id': i, 'steps': steps})
+    ctx.cov['races_in_behaviours'] = len([1 for b in behs for s in b['steps'] if s['op'] == 'race'])
+    # witness behaviours: the shortest ways into the named page-boundary windows (counter-examples to their negations)
+    wit_names = [n for n in names if n['id'] in (7, 8, 10, 11, 21, 23, 24)]
+    for wi, window in enumerate(['NoEdgeFull', 'NoEdgeBump']):
+        mcw = mc_ops(wit_names, [143, 161], ['lib1'], [1], 7)
+        cfgw = ('SPECIFICATION Spec\nINVARIANT %s\nVIEW View\nCHECK_DEADLOCK FALSE\nCONSTANTS\n Names <- MCNames\n MetaLens <- MCMetaLens\n'
+                ' Actors <- MCActors\n Incs <- MCIncs\n MaxOps <- MCMaxOps\n' % window)
+        rw = ctx.tlc('MCFileFormatOps', cfg_text=cfgw, files={'MCFileFormatOps.tla': mcw}, label='FileFormatOps-witness-' + window, count=False)
+        if rw.error != 'invariant' or not rw.trace:
+            raise Infra('FileFormatOps: window %s is not reachable in the model (%s)' % (window, rw.error))
+        steps = [to_step(st) for (_a, st) in rw.trace]
+        for variant in range(2):       # created by the library / by the independent writer
+            behs.append({'id': 900000 + 5 * wi + variant, 'steps': steps})
+    ctx.cov['witness_behaviours'] = 4
     if not behs:
         raise Infra('no behaviours from TLC simulate')
     ctx.cov['max_pages_in_behaviours'] = pages
@@ -224,6 +243,7 @@ def run(ctx):
     ctx.cov['traces_validated_against_impl'] += summ[0]['matched']       # behaviours whose every step matched the model state exactly
     ctx.cov['behaviours_replayed'] = summ[0]['behaviours']
     ctx.cov['behaviour_steps'] = summ[0]['steps']
+    ctx.cov['races_fired'] = summ[0].get('races', 0) + sum(x.get('races', 0) for x in recs if x.get('kind') == 'summary2')
     ctx.cov['evaluations'] += summ[0]['steps']
     for m in [x for x in recs if x.get('kind') == 'mismatch']:
         where = 'behaviour %s step %s' % (m.get('id'), m.get('step')) if 'id' in m else 'random run %s' % m.get('random_run')
@@ -245,11 +265,11 @@ def run(ctx):
     for e in evs:
         runs.setdefault(e['run'], []).append(e)
     keys = sorted(runs)
-    per = 80
+    per = ctx.pick(200, 100)
     ok_runs = 0
     for i in range(0, len(keys), per):
         part = [e for k in keys[i:i + per] for e in runs[k]]
-        lines = [{k: v for k, v in e.items() if k in ('op', 'name', 'k', 'm', 'obs')} for e in part]
+        lines = [{k: v for k, v in e.items() if k in ('op', 'name', 'xname', 'k', 'm', 'obs')} for e in part]
         status, info, _r = tlc_trace(ctx, 'FileFormatOpsTrace', {'c10ops.ndjson': ndjson_text(lines)}, 'FileFormatOpsTrace[%d]' % (i // per))
         if status == 'ok':
             ok_runs += len(keys[i:i + per])
